@@ -372,7 +372,7 @@ func verifC18Bucket(n int64) int {
 func TestVerifC18FeeFunction(t *testing.T) {
 	vc := verifStart(t, "C18", "feefunction")
 	defer vc.Finish()
-	total := vc.N(400000, 40000000)
+	total := vc.N(400000, 100000000)
 	for i := 0; i < total; i++ {
 		if !vc.Mine(i) {
 			continue
@@ -384,7 +384,7 @@ func TestVerifC18FeeFunction(t *testing.T) {
 			vc.Count("cases", 1)
 		}
 		verifC18RunFF(vc, c)
-		if i%100000 == 7 {
+		if i%100000 == 7 && i < 1000000 {
 			vc.Sample(c)
 		}
 	}
@@ -1194,7 +1194,7 @@ func verifC18Ceiling(vc *verifCtx, w *verifC18Wallet, rec *monitorRecord, h int3
 func TestVerifC18Publisher(t *testing.T) {
 	vc := verifStart(t, "C18", "publisher")
 	defer vc.Finish()
-	total := vc.N(24000, 1000000)
+	total := vc.N(24000, 3000000)
 	for i := 0; i < total; i++ {
 		if !vc.Mine(i) {
 			continue
@@ -1203,7 +1203,7 @@ func TestVerifC18Publisher(t *testing.T) {
 		c := verifC18GenPub(r)
 		vc.Case(i, c)
 		verifC18RunPub(t, vc, r.Fork("run"), &c)
-		if i%6000 == 3 {
+		if i%6000 == 3 && i < 100000 {
 			vc.Sample(c)
 		}
 		vc.CaseDone(i)
